@@ -250,6 +250,10 @@ func (st *Runtime) recover(err *error) {
 
 func (st *Runtime) executeSet(left Expression, right reflect.Value) {
 	typ := left.Type()
+	if typ == NodeUnderscore {
+		// '_' discards the value (also as a variable of {{range k, _ = x}})
+		return
+	}
 	if typ == NodeIdentifier {
 		err := st.setValue(left.(*IdentifierNode).Ident, right)
 		if err != nil {
